@@ -126,7 +126,7 @@ fn c05_check(s: &mut Sink, bytes: &[u8], pos: usize, bufs: &Bufs) {
     // the last configuration registers a stack-usage calculator and a one-byte range of allowed
     // memory that lies below the packet (so that `address - range start` is meaningful for every
     // access the program makes through r1)
-    let configs: [(VmKind, usize); 4] = [(VmKind::NoData, 0), (VmKind::Raw, 1), (VmKind::Mbuff, 2), (VmKind::Raw, 3)];
+    let configs: [(VmKind, usize); 6] = [(VmKind::NoData, 0), (VmKind::Raw, 1), (VmKind::Mbuff, 2), (VmKind::Raw, 3), (VmKind::Fixed(0x18, 0x08), 1), (VmKind::Fixed(0x0, 0x8), 0)];
     for (kind, hs) in configs {
         let r = catch(|| {
             let mut vm = AnyVm::new(kind, Some(bytes)).map_err(|e| format!("load: {e}"))?;
@@ -447,6 +447,55 @@ fn enumerate_special(s: &mut Sink, mode: Mode, g: &mut u64) {
         }
     }
     s.done("every opcode x dense immediates (-1100..=1100, w +- 2^j)");
+    // every opcode x dense offsets: -40..=40 and +-2^j (an offset field the instruction does not
+    // use must not matter; one it uses as a displacement decides where the jump lands)
+    let mut doffs: Vec<i16> = (-40..=40).collect();
+    for j in 6..15u32 {
+        doffs.push(1i16 << j);
+        doffs.push(-(1i16 << j));
+    }
+    for opc in 0..=255u8 {
+        let idx = *g;
+        *g += 1;
+        if !s.take(idx) {
+            continue;
+        }
+        let mut nn = 0;
+        for off in &doffs {
+            for (dst, src, imm) in [(1u8, 2u8, 16i32), (0, 1, 0)] {
+                let f = I::new(opc, dst, src, *off, imm);
+                let mut prog: Vec<I> = vec![isa::mov64i(0, 0), isa::mov64i(1, 0), isa::mov64i(2, 0), f];
+                if opc == 0x18 {
+                    prog.push(I::new(0, 0, 0, 0, 0));
+                }
+                prog.extend([isa::mov64i(0, 1), isa::mov64i(0, 2), isa::EXIT]);
+                let bytes = isa::enc(&prog);
+                nn += 1;
+                match mode {
+                    Mode::C06 => {
+                        c06_check(s, &bytes, 3, false);
+                    }
+                    Mode::C05 => {
+                        if rbpf::EbpfVmMbuff::new(Some(&bytes)).is_ok() {
+                            c05_check(s, &bytes, 3, &bufs);
+                        }
+                    }
+                    Mode::C12 => {
+                        if rbpf::EbpfVmMbuff::new(Some(&bytes)).is_ok() {
+                            c12_check(s, &bytes, 3, Eng::Jit, false);
+                        }
+                    }
+                }
+            }
+        }
+        s.count("evaluations", nn);
+        s.count("states", nn);
+        if mode == Mode::C06 {
+            s.count("transitions", nn);
+            s.count("traces_validated_against_impl", nn);
+        }
+    }
+    s.done("every opcode x dense offsets (-40..=40, +-2^j)");
     if mode == Mode::C06 {
         let idx = *g;
         *g += 1;
@@ -518,6 +567,21 @@ fn family_programs(thorough: bool) -> Vec<(String, Vec<I>)> {
         p.push(isa::add64i(0, 1));
         p.push(isa::EXIT);
         v.push((format!("{k}x-local-call-sites"), p));
+    }
+    // after a store: every way of writing r10, then a local call and returns (accepted only by a
+    // verifier that forgets to reset per-instruction state; must then still not crash)
+    for (wn, w) in [("mov64-imm", vec![isa::mov64i(10, 64)]), ("mov64-imm-neg", vec![isa::mov64i(10, -1)]), ("mov32-imm", vec![I::new(0xb4, 10, 0, 0, 7)]),
+                    ("add64-imm", vec![isa::add64i(10, 1 << 30)]), ("lddw", isa::lddw(10, u64::MAX).to_vec()), ("ldxdw", vec![I::new(0x79, 10, 10, -8, 0)]),
+                    ("neg64", vec![I::new(0x87, 10, 0, 0, 0)]), ("mov64-reg", vec![isa::mov64r(10, 1)])] {
+        for st in [I::new(0x7b, 10, 1, -8, 0), I::new(0x7a, 10, 0, -8, 5), I::new(0xdb, 10, 1, -8, 0)] {
+            let mut p = vec![isa::mov64i(1, 0), st];
+            p.extend(w.iter());
+            p.push(isa::call_local(1));
+            p.push(isa::EXIT);
+            p.extend(w.iter());
+            p.push(isa::EXIT);
+            v.push((format!("store-then-r10-write-{wn}"), p));
+        }
     }
     // chains: f_i calls f_{i+1}; the innermost returns (depth d), forward and backward layout
     for d in 1..=12usize {
